@@ -102,6 +102,7 @@ var c05pool = map[string][]string{
 	"generic":    {"<=", "<>", ">=", "<", "a<=b<>c>=d", "abc", "12.5", "-", "'q'", "'open", "# c", " ", "", "a.b-c", "Ж", "😀"},
 	"expression": {"<=", "<>", "<<", ">=", ">>", "!=", "<", ">", "!", "a<=b<>c<<d>=e>>f!=g", "abc", "1.5e3", "'q''r'", "\"w\"", "'open", "/* c */", "/* open", "/", " ", "", "NOT x"},
 	"csv":        {"\r\n", "\n\r", "\r", "\n", "a,b\r\nc\n\rd", "\"q\"\"r\"", "\"open", ",", "", "a"},
+	"generic-custom": {"=:=", "=:", "=", "<!--", "<!-", "<!", "!>>>", "!>>", "a=:=b<!--c", "=:=:<!-!>>", "", "x"},
 	"mustache":   {"{{", "{{{", "}}", "}}}", "{{a}}", "{{{a}}}", "x{{a}}y{{{b}}}z", "text", "{{ 'q' }}", "{{#a}}b{{/a}}", "{", "}", "", "{{ open"},
 }
 
